@@ -920,19 +920,31 @@ impl Planner {
             return Ok((empty_op, columns));
         }
 
-        // Try to use property index for equality predicates on indexed properties
-        if let Some(result) = self.try_plan_filter_with_property_index(filter)? {
-            return Ok(result);
+        // Try to use property index for equality predicates on indexed properties.
+        // The lookup only accounts for the equality conjuncts it extracted (and the
+        // range path only for its one range conjunct), so the whole predicate is
+        // still applied on top of the candidate nodes.
+        if let Some((input_op, columns)) = self.try_plan_filter_with_property_index(filter)? {
+            return self.apply_predicate(input_op, columns, &filter.predicate);
         }
 
         // Try to use range optimization for range predicates (>, <, >=, <=)
-        if let Some(result) = self.try_plan_filter_with_range_index(filter)? {
-            return Ok(result);
+        if let Some((input_op, columns)) = self.try_plan_filter_with_range_index(filter)? {
+            return self.apply_predicate(input_op, columns, &filter.predicate);
         }
 
         // Plan the input operator first
         let (input_op, columns) = self.plan_operator(&filter.input)?;
+        self.apply_predicate(input_op, columns, &filter.predicate)
+    }
 
+    /// Wraps `input_op` in a filter evaluating `predicate_expr` over its columns.
+    fn apply_predicate(
+        &self,
+        input_op: Box<dyn Operator>,
+        columns: Vec<String>,
+        predicate_expr: &LogicalExpression,
+    ) -> Result<(Box<dyn Operator>, Vec<String>)> {
         // Build variable to column index mapping
         let variable_columns: HashMap<String, usize> = columns
             .iter()
@@ -941,7 +953,7 @@ impl Planner {
             .collect();
 
         // Convert logical expression to filter expression
-        let filter_expr = self.convert_expression(&filter.predicate)?;
+        let filter_expr = self.convert_expression(predicate_expr)?;
 
         // Create the predicate
         let predicate =
